@@ -21,7 +21,7 @@ CHECKS = {
              "response code) variant, area tables and keys, byte-sized session area, encryption flag provenance, header-only "
              "failed responses; W10 (= C05-E3) the pump's one silent return is restricted to the command/response stream, so no "
              "root event of a top-level decode is swallowed; W11 payload-kind table of the size-prefixed walker; W12 no discarded "
-             "generators; W13 (= C04-V4) every member of a named range is a member. Event values for concrete bytes are not decided. W14 every walker hands (size, value) back on every completing path.",
+             "generators; W13 (= C04-V4) every member of a named range is a member. Event values for concrete bytes are not decided. W14 every walker hands (size, value) back on every completing path. W15 the pump hands type, root path, command code, encryption flag and mode to the dispatcher; F also: the response's encryption cross-check is evaluated only in variants that decode a session area.",
         note="trusted: CPython ast; E1 model (guards G1-G7); semantics of int.from_bytes, dataclasses.fields order and generators.",
         technique="pinned table snapshot + decision-list evaluation over all type descriptors + partial evaluation / def-use rules on the walkers",
         design="4/C01",
@@ -36,7 +36,7 @@ CHECKS = {
              "a second reader idiom, in-place big-endian accumulation with two's-complement correction, is recognised and its "
              "threshold judged exactly); B4 nobody else defines to_bytes; B5 every valid set fits its "
              "width (exhaustive over 102 primitive types). These are necessary conditions of the round trip; byte equality "
-             "on concrete inputs is a value clause and is not decided. B1 also as a guard table: which width / signedness reaches int.to_bytes under which outcome of `<param> is None`.",
+             "on concrete inputs is a value clause and is not decided. B1 also as a guard table: which width / signedness reaches int.to_bytes under which outcome of `<param> is None`. B7 (= C04-V4): NamedRange.by_number(n) is the member with value n.",
         note="trusted: CPython ast; int.from_bytes/int.to_bytes are mutual inverses for equal (width, order, signedness).",
         technique="reader/writer agreement by def-use comparison + who-defines rule + exhaustive table check",
         design="4/C02",
@@ -84,7 +84,7 @@ CHECKS = {
              "errors carry the running command code, assigned only from the <root>.commandCode event. E3: the silent "
              "end-of-input return is control dependent on the stream type, the depleted flag and a root event; the error "
              "classes store exactly the surplus bytes / command code they are given (path summaries of their constructors). Decides the "
-             "shape of the pump on all paths, not which events precede the error for a concrete truncation point. Also: the running command code is captured; boundary test polarity; handler exits of the pump (a finished processor is never resumed, constraint errors are re-raised on every path).",
+             "shape of the pump on all paths, not which events precede the error for a concrete truncation point. Also: the running command code is captured; boundary test polarity; handler exits of the pump (a finished processor is never resumed, constraint errors are re-raised on every path). E1 also: every superfluous error is given the surplus bytes; E3 accepts the boundary test by event type for exactly {Command, Response}.",
         note="trusted: CPython ast; generator send/StopIteration semantics; processor protocol (C10-T1). The events emitted "
              "before the error (value clause) are not decided.",
         technique="CFG + typestate abstract interpretation (path-sensitive on depleted flag / look-ahead byte), def-use, control dependence",
@@ -145,7 +145,7 @@ CHECKS = {
              "being TPMA_SESSION masks in L; S4 command then response at the stream's root path, mode threaded, no own "
              "termination; S5 separate_events cuts exactly at root-path MarshalEvents and events_to_objs alternates and carries "
              "the command code into exactly the next message (decision lists on the path summaries of one loop iteration); S6 = "
-             "C05-E3: a stream ends silently only at a message boundary. Equality of concatenated event lists is not decided. S6 also requires that the silent end-of-stream return exists.",
+             "C05-E3: a stream ends silently only at a message boundary. Equality of concatenated event lists is not decided. S6 also requires that the silent end-of-stream return exists. S5 also recognises the index-slicing form of separate_events (starts at root events, last slice to the end).",
         note="trusted: CPython ast; C01-W5 (child paths extend the parent) for the unambiguity of the cut.",
         technique="def-use on abstract traces (partial evaluation) + shape rules on the pairing helpers",
         design="4/C09",
@@ -158,7 +158,7 @@ CHECKS = {
              "with no byte request in between. T2: the buffer parameters of the pump and of the three lazy front-end "
              "scanners are used only through iter()/next() (except inside raise). T3: the processor never receives the "
              "buffer or iterator. T6: a scanner starts one traversal of its raw source only (bytes / lists restart). T5 (= C05-E3): the empty prefix of a non-stream decode reports depletion like every other "
-             "prefix. This is the structural core of the property; concrete pull counts are its dynamic view. T6 also: next() only on an iterator made from the source (never on the raw parameter).",
+             "prefix. This is the structural core of the property; concrete pull counts are its dynamic view. T6 also: next() only on an iterator made from the source (never on the raw parameter). T7 (= C15-F11): a character obtained with next(it, default) reaches int(..., 16) only where the default was excluded.",
         note="trusted: CPython ast; Python iterator/generator protocol. pcapng.marshal materialises its input by design (documented in the code) and is outside T2.",
         technique="CFG + typestate abstract interpretation of the pump, who-may-use rules on iterator/buffer variables",
         design="4/C10",
@@ -184,7 +184,7 @@ CHECKS = {
              "receiver is a module-level or class-level object; P2 every memoising decorator in reachable code is unbounded or "
              "has capacity >= the key space from L (234 parameter areas); P3 no mutable defaults, no module-level "
              "generators/iterators; P5 (= C09-S2) nothing the response decode of a stream is given is left over from an earlier pair. "
-             "Together with Python's determinism this is the property's structural core.",
+             "Together with Python's determinism this is the property's structural core. P4: no caller mutates the result of a memoised function (checked on the unmodified source).",
         note="trusted: CPython ast; call resolution by name over repo classes (over-approximation); a module-level instance of a "
              "repo class is followed through one local alias and through methods that return self, deeper aliasing is not tracked.",
         technique="call-graph reachability + effect (purity) analysis + memoisation capacity check against the static layout model",
@@ -211,7 +211,7 @@ CHECKS = {
              "the folder never needs folding; Q4 row shape: indentation len(path)-1, value text form, hex column = binary "
              "re-encoding of that event (the row is compared as a function of the two column conditions on path summaries, colour "
              "codes stripped, nested f-strings and str.join flattened), attribute rows only from the main loop with path+PathNode(attr). The rendered text "
-             "is not decided. Q5 list folding mode by element type, one membership test (same enclosing path and field name), empty-list flag, the folder pulls; Q6 no unbound local / undefined name in the printers.",
+             "is not decided. Q5 list folding mode by element type, one membership test (same enclosing path and field name), empty-list flag, the folder pulls; Q6 no unbound local / undefined name in the printers. Q7 no discarded generators in the printers; Q8 the byte buffer's translation table (folded) maps every byte to printable ASCII.",
         note="trusted: CPython ast; L (E1); C02-B2 for the hex column's content.",
         technique="must-dataflow (guard dominance) + typestate over the printer CFGs + FOLLOW-set facts from the static layout model",
         design="4/C14",
@@ -226,7 +226,7 @@ CHECKS = {
              "bytes re-yielded, dispatch table; F6 swtpm scanner: the transition table (state x input class -> next state, pending "
              "digit, marker progress, emitted byte, end) is extracted from the summaries of one loop iteration and compared with "
              "the documented machine; F7 an input ending inside a digit pair raises ValueError in both text scanners. "
-             "Language equivalence of the two text scanners with the documented formats and dpkt's parsing are not decided. F8 transition table of the hex scanner (two-pending-characters form), F9 decision table of the format detector and lenient default, F5 packet loop / payload source / unwrap loop, F10 no unbound local / undefined name in the front-ends.",
+             "Language equivalence of the two text scanners with the documented formats and dpkt's parsing are not decided. F8 transition table of the hex scanner (two-pending-characters form), F9 decision table of the format detector and lenient default, F5 packet loop / payload source / unwrap loop, F10 no unbound local / undefined name in the front-ends. F11 end-of-input defaults of next(it, default) are excluded before a hex conversion; the swtpm / hex transition tables are applied only to a scanner in the form they are stated over (otherwise an info line, the form-independent rules remain).",
         note="trusted: CPython ast; L (E1); dpkt. The scanner automata are not explored (that would be model checking).",
         technique="sibling agreement (delegation/return) + dominance of validation tests + constants recomputed from the static layout model + state-machine shape lint",
         design="4/C15",
@@ -250,7 +250,7 @@ CHECKS = {
              "2**(8*size)-1. M2 evaluates the accessor Bit.__get__ (abstractly, nothing of the repository runs) for every mask "
              "of every attribute type with the register value symbolic - each bit a symbol, case split where the code branches "
              "on a bit - and requires the wiring (value & mask) >> trailing_zeros(mask) for all values at once; the printer "
-             "emits one row per mask with value bits under mask ones. The rendered strings for concrete values are not decided. M2 also: the decorator attaches attributes() and returns the class.",
+             "emits one row per mask with value bits under mask ones. The rendered strings for concrete values are not decided. M2 also: the decorator attaches attributes() and returns the class. M2 also: masks are sorted by a key.",
         note="trusted: CPython ast; E1 model of tpm_bitfield (guards G1/G5/G7 re-validated each run). Decides the "
              "table clause and the accessor/row shape, not concrete rendered strings.",
         technique="static table reconstruction (abstract evaluation of spec modules) + bit-vector abstract evaluation of the accessor + AST def-use patterns",
@@ -263,7 +263,7 @@ CHECKS = {
              "the low 12 bits in the property's domain are routed through both trees: the text-form leaf must equal the "
              "reference written from the statement, the bit rows must partition 0xFFFFFFFF and use the same table, index "
              "mask, number mask and shift as the text form. N2: the three name tables equal pinned/rc_tables.json, no "
-             "duplicate keys. The whole domain is finite and enumerated.",
+             "duplicate keys. The whole domain is finite and enumerated. N1 evaluates helper functions / methods of TPM_RC symbolically (division by a power of two = shift).",
         note="trusted: CPython ast; constant folding of tpm_rc.py; dict/defaultdict lookup semantics. TPM 1.2-style "
              "codes (bits 7 and 8 clear) are outside the property's domain and not judged.",
         technique="symbolic path enumeration of the two classifier methods + exhaustive finite-domain comparison with a reference tree",
@@ -278,7 +278,7 @@ CHECKS = {
              "bytes and warn mode to the selected front-end and prints every item the selected printer yields (hex for bytes) "
              "with no cut in the loop; L4 the type search decodes strictly and catches exactly the documented error classes; "
              "L5 example output is under the command-code filter / exact-type selection and rendered from one event list. The "
-             "statement's observable (stdout / exit status of a process) is not decided. L2 the suggestion lookup cannot fail; L7 an eager Canonical has decoded inside its constructor with the arguments it was given, `type` lists the decoded type name (responses with their command code); L6 no unbound local / undefined name.",
+             "statement's observable (stdout / exit status of a process) is not decided. L2 the suggestion lookup cannot fail; L7 an eager Canonical has decoded inside its constructor with the arguments it was given, `type` lists the decoded type name (responses with their command code); L6 no unbound local / undefined name. L8 cc_name folded over all command codes gives the member's name; L7 also checks the plumbing of the type listing.",
         note="weakest claim: shape of __main__.py only; trusted: argparse semantics.",
         technique="table agreement + decision lists over path summaries of the CLI functions",
         design="4/C19",
